@@ -189,6 +189,61 @@ def _pattern_source(ctx, fn: FuncInfo, e: ast.expr, depth: int = 6):
     return None
 
 
+def _predicate_factory(ctx, fn: FuncInfo, call: ast.Call):
+    """`pred(x.id)` where pred is a local bound to `factory(...)`, a repo function that returns a nested function / lambda."""
+    if not isinstance(call.func, ast.Name):
+        return None
+    r = ctx.resolver(fn)
+    v = r.single_assignments().get(call.func.id)
+    if not isinstance(v, ast.Call):
+        return None
+    for t in r.resolve_call(v):
+        if isinstance(t, FuncInfo) and t.cls is None:
+            rets = [n.value for n in walk_no_nested(t.node) if isinstance(n, ast.Return) and n.value is not None]
+            nested = {x.name for x in ast.walk(t.node) if isinstance(x, ast.FunctionDef) and x is not t.node}
+            if rets and all(isinstance(rv, ast.Lambda) or (isinstance(rv, ast.Name) and rv.id in nested) for rv in rets):
+                return t
+    return None
+
+
+def _factory_regex_uses(ctx, fac: FuncInfo):
+    """(use, function holding the compile, pattern expression, call node) for every regex application inside the factory, closure
+    bodies included; a compiled pattern is traced through comprehension variables and local lists of the factory."""
+    out = []
+    assigns = {}
+    for n in ast.walk(fac.node):
+        if isinstance(n, ast.Assign):
+            for t in n.targets:
+                if isinstance(t, ast.Name):
+                    assigns.setdefault(t.id, []).append(n.value)
+    gens = [g for n in ast.walk(fac.node) if isinstance(n, (ast.ListComp, ast.GeneratorExp, ast.SetComp)) for g in n.generators]
+    for n in ast.walk(fac.node):
+        if not (isinstance(n, ast.Call) and isinstance(n.func, ast.Attribute) and n.func.attr in ("match", "search", "fullmatch")):
+            continue
+        e = n.func.value
+        for _ in range(6):
+            if isinstance(e, ast.Name):
+                g = next((g for g in gens if isinstance(g.target, ast.Name) and g.target.id == e.id), None)
+                if g is not None:
+                    e = g.iter
+                    continue
+                vals = assigns.get(e.id, [])
+                if len(vals) == 1:
+                    e = vals[0]
+                    continue
+                break
+            if isinstance(e, (ast.ListComp, ast.GeneratorExp, ast.SetComp)):
+                e = e.elt
+                continue
+            break
+        ps = _pattern_source(ctx, fac, e) if isinstance(e, ast.Call) else None
+        if ps is None:
+            out.append((n.func.attr, fac, e, n))
+        else:
+            out.append((n.func.attr, ps[0], ps[1], n))
+    return out
+
+
 def rule_glob_anchored(ctx, rep):
     rep.rule(
         "R-GLOB-ANCHORED",
@@ -242,6 +297,19 @@ def rule_glob_anchored(ctx, rep):
             continue  # judged above
         if la in ("setdefault", "get", "append", "add", "debug", "info", "warning", "format", "pop") or q in ("str", "repr", "len", "hash"):
             continue  # bookkeeping with the id, not a pattern predicate
+        fac = _predicate_factory(ctx, fn, c)
+        if fac is not None:
+            # `pred = make_matcher(patterns); pred(x.id)`: judge the regex uses inside the factory (closure included)
+            uses = _factory_regex_uses(ctx, fac)
+            if uses:
+                for use, sfn, x, node in uses:
+                    n_sites += 1
+                    escaped = any(isinstance(c2, ast.Call) and (ctx.resolver(sfn).callee_qname(c2) or "") == "re.escape" for c2 in ast.walk(x))
+                    full = use == "fullmatch"
+                    rep.check("R-GLOB-ANCHORED", fac.qname, fac.loc(node), escaped and full, f"{use}:{unparse(x)[:40]}",
+                              f"user pattern becomes regex `{unparse(x)[:60]}` applied with .{use}() inside the matcher factory {fac.name}: "
+                              + ", ".join(w for w, cnd in (("metacharacters not escaped", not escaped), ("not matched in full", not full)) if cnd))
+                continue
         n_other += 1
         rep.check("R-GLOB-ANCHORED", fn.qname, fn.loc(c), False, f"matcher:{unparse(c.func)[:30]}",
                   f"codemod ids are matched against user patterns through `{unparse(c)[:50]}`, which is neither fnmatch nor an escaped "
